@@ -207,8 +207,8 @@ class InstrumentedServer:
                 datetime.fromtimestamp(t, timezone.utc).isoformat(),
             ), namespace=self.admin_namespace)
         elif event == 'disconnect':
-            del self.sio.manager._timestamps[sid]
-            reason = args[1]
+            self.sio.manager._timestamps.pop(sid, None)
+            reason = args[1] if len(args) > 1 else None
             self.sio.emit('socket_disconnected', (
                 namespace,
                 sid,
